@@ -18,6 +18,8 @@ myth_handle_PTHREAD_MUTEX_INITIALIZER (constants and order of its stores).
 This module is in the trusted base of C16 (named there).  It prints nothing; everything it extracted is
 returned as JSON-able data for the evidence file."""
 import os, re, subprocess
+import sys
+sys.path.insert(0, os.path.dirname(os.path.dirname(os.path.abspath(__file__))))
 import vlib
 
 
@@ -689,7 +691,7 @@ def creal(r):
 
 def coq_data(tr, header):
     L = [header, "From Coq Require Import List String ZArith.", "From MT Require Import Wrap.WrapSpec Wrap.AttrModel Wrap.StaticInitModel.",
-         "Import ListNotations.", "Open Scope string_scope.", "Open Scope Z_scope.", ""]
+         "Import ListNotations.", "Local Open Scope string_scope.", "Local Open Scope Z_scope.", ""]
     L.append("Definition table : list entry := [")
     rows = []
     for e in tr["entries"]:
@@ -725,3 +727,17 @@ def coq_data(tr, header):
                  val(s["init_magic"]), val(s["final"]), val(s["spin"]), sl(s["order"]),
                  len(s["other"]) + (0 if s["found"] else 1)))
     return "\n".join(L) + "\n"
+
+
+if __name__ == "__main__":
+    # python3 tools/props/c16_translate.py --pinned : regenerate coq/Wrap/WrapTablePinned.v (a committed snapshot of
+    # the tree at hand; used only for the non-vacuity Examples of Properties_C16.v)
+    import sys
+    if "--pinned" in sys.argv:
+        tr = translate(os.path.join(vlib.BUILD, "C16", "pin"))
+        txt = coq_data(tr, "(** Snapshot of the wrapper table of the pinned tree, written by\n"
+                           "    `python3 tools/props/c16_translate.py --pinned`.  Used only for the Examples of Properties_C16.v;\n"
+                           "    the check regenerates the data from the current tree on every run\n"
+                           "    (build/C16/gen/WrapTableGen.v). *)")
+        open(os.path.join(vlib.COQ, "Wrap", "WrapTablePinned.v"), "w").write(txt)
+        print("wrote coq/Wrap/WrapTablePinned.v with %d entries" % len(tr["entries"]))
